@@ -741,7 +741,11 @@ META = {
             "base-fact set, rule order and fuel, a finished naive evaluation holds exactly the facts of the stratified least "
             "model, hence the same set as a finished semi-naive evaluation (C01); the pre-fix negation is refuted. The models "
             "are tied to the code on every run by evaluating generated stratifiable programs (same-round joins, mutual and "
-            "non-linear recursion, negation, comparisons, arithmetic, pairs/lists, head functions) with "
+            "non-linear recursion, negation, comparisons, arithmetic, pairs/lists, head functions) and, on every run, "
+            "templates of non-linear recursion with asymmetric roles (two and three occurrences of the recursive predicate "
+            "in any premise position, mutual recursion mentioning the other predicate twice, recursion through arithmetic "
+            "over pairs of derived numbers; data in a random derivation order, so that the newest fact of a rule instance "
+            "sits at a later occurrence) with "
             "engine.EvalProgramNaive and engine.EvalProgram on copies of one store; the two Go fact sets must be equal "
             "(the property itself, decided on the implementation's outputs) and each equal to its model evaluated inside Coq; "
             "thorough adds an exhaustive block over a small rule schema.",
